@@ -2,6 +2,12 @@
 """Regenerates MANIFEST.json from the table below (kept here so the manifest is always valid JSON)."""
 import json, subprocess
 CHECKS = {
+ "C01": ("exploration", "runtime monitor at the API boundary: panic/fatal/result-shape oracle + logical step budget (verifhook.Step), child processes with crash attribution",
+         "Every registered standard filter x receiver x argument tuples from a ~85-value boundary universe (exhaustive; args from the reduced universe in quick), an exhaustive operator/tag matrix over U^2, and 1.5e5 (quick) / 3e6 (thorough) hostile sources (PRNG bytes, delimiter strings, mutations of generated programs and of the template literals harvested from /repo's own tests, selector and oversized-literal injections) are parsed and rendered by the real code in worker processes. Oracle: no panic reaches the API, no worker dies or exceeds 60 CPU-s on a case, result is output xor non-nil SourceError, hook step count within a budget proportional to tokens x loop extent^nesting.",
+         "Sampling beyond the enumerated matrices; inputs that can spell an unbounded range are skipped (counted in evidence); work at unhooked sites is only bounded by the CPU watchdog.", "DESIGN.md 5/C01"),
+ "C20": ("fault_enumeration", "fault injection through the caller-supplied io.Writer, exhaustive over write index x fault shape per template",
+         "For each of 4e3 (quick) / 8e4 (thorough) templates covering every tag (tablerow, include, capture, raw, trim markers, user tag/block) the fault-free FRender is recorded (W writes, output O); then every k in 0..W and three fault shapes (accept nothing, accept half, fail once then accept) are injected via FRender/ParseAndFRender. Oracle: no panic, non-nil SourceError carrying the injected sentinel, accepted bytes are a prefix of O.",
+         "Exhaustive over (k, shape) per generated template; templates themselves are sampled. A nondeterministic fault-free render is skipped (C02 decides that).", "DESIGN.md 5/C20"),
  # id: (level, technique, text, note, design_ref)
  "C05": ("exploration", "runtime monitor: identity/partition/line-law oracles over exhaustive short strings and PRNG bytes",
          "Every string over an 8-symbol delimiter alphabet up to length 6 (quick) / 8 (thorough) is pushed through parser.Scan and parse+render of the real code; oracles: token sources concatenate to the input, token line = start + preceding newlines, no-open sources render to themselves, raw bodies verbatim, comment bodies inert and unevaluated (probe tag), string values printed exactly. Exhaustive for the bounded alphabet, sampled (PRNG bytes/UTF-8 to 64 KiB) beyond.",
